@@ -111,8 +111,9 @@ def setBool (pj : PJ) (i : Iter) (v : Bool) : Res (PJ × Iter) :=
       .ok ({ pj with tape := tp }, { i with t := t, cur := 0 })
   else .error .generic
 
-/-- The NOP fill loop `for j := lo; j < hi; j++ { tape[j] = Nop | (hi - j) }` on the whole array
-    (`Object.DeleteElems`, via `fillNops`). -/
+/-- The NOP fill loop `for j := lo; j < hi; j++ { tape[j] = Nop | (hi - j) }` checked against the whole array only.
+    No Go function writes this way (all of them write through a view: `nopFillV`); kept as the reference the proofs
+    compare with (`nopFillV_eq_nopFill`: the two agree whenever `hi ≤ lim`). -/
 def nopFill (tape : Array UInt64) (lo hi : Nat) : Res (Array UInt64) :=
   if h : lo < hi then do
     let t ← wr tape lo (mkWord tagNop (UInt64.ofNat (hi - lo)))
@@ -120,7 +121,8 @@ def nopFill (tape : Array UInt64) (lo hi : Nat) : Res (Array UInt64) :=
   else .ok tape
 termination_by hi - lo
 
-/-- The same loop through an iterator's view of length `lim` (`SetNull` on a container):
+/-- The same loop through an iterator's view of length `lim` (`SetNull` on a container, `Array.DeleteElems`,
+    `Object.DeleteElems`):
     `for j := lo; j < hi; j++ { i.tape.Tape[j] = Nop | (hi - j) }` panics at the first `j ≥ lim`. -/
 def nopFillV (lim : Nat) (tape : Array UInt64) (lo hi : Nat) : Res (Array UInt64) :=
   if h : lo < hi then do
